@@ -22,6 +22,11 @@ func (in *Interp) callBuiltin(name string, args []Value) Value {
 		}
 	}
 	switch name {
+	case "spawn":
+		if len(args) < 1 {
+			panic(argsErr("spawn"))
+		}
+		return in.spawn(args[0], args[1:])
 	case "print":
 		in.Print(args)
 		return NilV{}
@@ -88,12 +93,46 @@ func (in *Interp) callBuiltin(name string, args []Value) Value {
 		in.tag("undecided")
 		return NilV{}
 	case "sorted":
-		if len(args) != 1 {
-			// sorted with a comparison function is exercised by C02's escape routes, not modelled here
-			if len(args) == 2 {
+		if len(args) == 2 {
+			// sorted(list, less): a stable sort driven by the script function. The implementation uses
+			// sort.SliceStable; the same algorithm on the same data calls the comparator in the same order.
+			l, isList := args[0].(*List)
+			clo, isFn := args[1].(*Closure)
+			if !isList || !isFn {
 				in.tag("undecided")
 				return NilV{}
 			}
+			items := append([]Value{}, l.Items...)
+			in.cost(len(items) * 4)
+			var sortErr *RErr
+			sort.SliceStable(items, func(i, j int) bool {
+				if sortErr != nil {
+					return false
+				}
+				var res Value
+				func() {
+					defer func() {
+						if r := recover(); r != nil {
+							if e, ok := r.(*RErr); ok && e.Cat != "panic" {
+								sortErr = e
+								return
+							}
+							panic(r)
+						}
+					}()
+					res = in.callClosure(clo, []Value{items[i], items[j]})
+				}()
+				if sortErr != nil {
+					return false
+				}
+				return Truthy(res)
+			})
+			if sortErr != nil {
+				panic(sortErr)
+			}
+			return &List{Items: items}
+		}
+		if len(args) != 1 {
 			panic(argsErr("sorted"))
 		}
 		var items []Value
@@ -422,6 +461,18 @@ func (in *Interp) callMethod(m *BoundMethod, args []Value) Value {
 				return false
 			}
 			return strings.Contains(recv, s)
+		}
+	case *Closure:
+		if m.Name == "spawn" {
+			return in.spawn(recv, args)
+		}
+	case *ThreadV:
+		if m.Name == "wait" {
+			if recv.Err != nil {
+				// the thread's error is re-raised by wait(); its fatality is lost on the way
+				panic(&RErr{Cat: recv.Err.Cat, Msg: recv.Err.Msg})
+			}
+			return recv.Res
 		}
 	case *ErrV:
 		switch m.Name {
